@@ -6,7 +6,8 @@ the keys requested, so a replay rebuilds identical objects.
 
 Key grammar
     s:<label>        the str <label>
-    i:<n>            the int n (n >= 1; falsy data is an excluded argument class)
+    i:<n>            the int n (0 included: falsy data is legal node data; only
+                     set_data(<falsy>) is an excluded argument class)
     t:<n>#<j>        j-th instance of the tuple (n, "t")  (equal, distinct objects)
     d:<n>#<j>        j-th instance of the frozen dataclass FPerson("p<n>", n)
     w:<n>            DictWrapper around its own dict {"k": n}   (identity hashed)
